@@ -3,6 +3,7 @@
 package hotline
 
 import (
+	"bufio"
 	"context"
 	"io"
 )
@@ -29,3 +30,54 @@ func VerifRequestCtx(ctx context.Context, remoteAddr string) context.Context {
 }
 
 func VerifPerformHandshake(rw io.ReadWriter) error { return performHandshake(rw) }
+
+// ---- wire-format entry points (C01) ----
+
+// VerifHandshakeWrite decodes a client handshake with the unexported handshake type.
+func VerifHandshakeWrite(p []byte) (protocol, subProtocol [4]byte, version, subVersion [2]byte, n int, valid bool, err error) {
+	var h handshake
+	n, err = h.Write(p)
+	return h.Protocol, h.SubProtocol, h.Version, h.SubVersion, n, h.Valid(), err
+}
+
+// VerifTransferWrite decodes a transfer preamble with the unexported transfer type.
+func VerifTransferWrite(p []byte) (protocol, refNum, dataSize [4]byte, n int, err error) {
+	var t transfer
+	n, err = t.Write(p)
+	return t.Protocol, t.ReferenceNumber, t.DataSize, n, err
+}
+
+// VerifFormattedPath exposes folderUpload.FormattedPath.
+func VerifFormattedPath(pathItemCount [2]byte, fileNamePath []byte) string {
+	fu := folderUpload{PathItemCount: pathItemCount, FileNamePath: fileNamePath}
+	return fu.FormattedPath()
+}
+
+// VerifNewFFO builds a flattened file object the way fileWrapper does.
+func VerifNewFFO(info FlatFileInformationFork, dataSize, rsrcSize [4]byte, forkCount [2]byte) *flattenedFileObject {
+	return &flattenedFileObject{
+		FlatFileHeader:                FlatFileHeader{Format: [4]byte{0x46, 0x49, 0x4c, 0x50}, Version: [2]byte{0, 1}, ForkCount: forkCount},
+		FlatFileInformationForkHeader: FlatFileForkHeader{ForkType: [4]byte{0x49, 0x4E, 0x46, 0x4F}, DataSize: info.Size()},
+		FlatFileInformationFork:       info,
+		FlatFileDataForkHeader:        FlatFileForkHeader{ForkType: [4]byte{0x44, 0x41, 0x54, 0x41}, DataSize: dataSize},
+		FlatFileResForkHeader:         FlatFileForkHeader{ForkType: [4]byte{0x4D, 0x41, 0x43, 0x52}, DataSize: rsrcSize},
+	}
+}
+
+// VerifFFOReadFrom parses an uploaded flattened file object header from r.
+func VerifFFOReadFrom(r io.Reader) (info FlatFileInformationFork, forkCount [2]byte, dataSize int64, err error) {
+	var ffo flattenedFileObject
+	_, err = ffo.ReadFrom(r)
+	return ffo.FlatFileInformationFork, ffo.FlatFileHeader.ForkCount, ffo.dataSize(), err
+}
+
+// VerifSplitFuncs returns the unexported scanner split functions.
+func VerifSplitFuncs() map[string]bufio.SplitFunc {
+	return map[string]bufio.SplitFunc{
+		"transaction": transactionScanner,
+		"field":       FieldScanner,
+		"fileItem":    fileItemScanner,
+		"server":      serverScanner,
+		"newsPath":    newsPathScanner,
+	}
+}
